@@ -122,32 +122,45 @@ def run(rep):
     us = find_def(mod, 'AdapterLookupBase._uncached_subscriptions')
     sem.registry_walk_spec(rep, 'R07.1', us, '_subscriptions', '_subscribers', 'rev',
                            False, ["''", '[]', '0', 'len(required)'], '[]')
-    # R07.2
+    # R07.2 (over path summaries)
+    from ..sympath import summaries as _S, normal as _N
+    from .sem import nt as _nt
+    from .rosem import comp_shape
     f = find_def(mod, 'BaseAdapterRegistry._addValueToLeaf')
-    ps = shared.params(f)
-    ex, new = ps[1], ps[2]
-    t = set(path_table(f))
-    want1 = {((('%s is None' % ex, 'T'),), '(%s,)' % new),
-             ((('%s is None' % ex, 'F'),), '%s + (%s,)' % (ex, new))}
-    want2 = {((('%s is not None' % ex, 'F'),), '(%s,)' % new),
-             ((('%s is not None' % ex, 'T'),), '%s + (%s,)' % (ex, new))}
-    rep.check('R07.2', 'BaseAdapterRegistry._addValueToLeaf', t in (want1, want2),
-              'decision table %s' % sorted(map(str, t)), node=f)
+    ps_ = shared.params(f)
+    ex, new = ps_[1], ps_[2]
+    probs = []
+    seen = set()
+    for ps in _N(_S(f)):
+        n_ = ps.facts.get('%s is None' % ex)
+        seen.add(n_)
+        r = _nt(ps.ret)
+        if n_ is True and r != '(%s,)' % new:
+            probs.append('no leaf yet: returns `%s`' % r[:50])
+        elif n_ is False and r not in ('%s + (%s,)' % (ex, new), '(*%s, %s)' % (ex, new)):
+            probs.append('existing leaf: returns `%s` (required: appended at the end)'
+                         % r[:50])
+        elif n_ is None:
+            probs.append('existing leaf not tested for None')
+    if seen != {True, False}:
+        probs.append('cases seen %s' % sorted(seen, key=str))
+    rep.check('R07.2', 'BaseAdapterRegistry._addValueToLeaf', not probs,
+              'None -> (new,); otherwise existing + (new,) (appended last)'
+              if not probs else {'problems': sorted(set(probs))[:3]}, node=f)
     f = find_def(mod, 'BaseAdapterRegistry._removeValueFromLeaf')
-    ps = shared.params(f)
-    ex, rm = ps[1], ps[2]
-    rets = [n for n in walk_local(f) if isinstance(n, ast.Return)]
-    ok = len(rets) == 1
-    if ok:
-        v = rets[0].value
-        if isinstance(v, ast.Call) and isinstance(v.func, ast.Name) and \
-                v.func.id == 'tuple' and len(v.args) == 1:
+    ps_ = shared.params(f)
+    ex, rm = ps_[1], ps_[2]
+    rets = [ps.ret for ps in _N(_S(f))]
+    ok = bool(rets)
+    for v in rets:
+        if isinstance(v, ast.Call) and dotted(v.func) == 'tuple' and len(v.args) == 1:
             v = v.args[0]
-        ok = match('[$v for $v in %s if $v != %s]' % (ex, rm), v) is not None or \
-            match('($v for $v in %s if $v != %s)' % (ex, rm), v) is not None or \
-            match('[$v for $v in %s if not $v == %s]' % (ex, rm), v) is not None
+        sh = comp_shape(v)
+        ok = ok and sh is not None and sh[0] == '$' and sh[1] == ex and sh[2] == 'fwd' \
+            and sh[3] in (['$ != %s' % rm], ['not $ == %s' % rm])
     rep.check('R07.2', 'BaseAdapterRegistry._removeValueFromLeaf', ok,
-              'returns %s' % [norm_src(r.value) for r in rets], node=f)
+              'keeps, in order, exactly the items != to_remove: %s'
+              % [_nt(r)[:70] for r in rets], node=f)
 
     # R07.3 unsubscribe
     from . import mutators
@@ -155,36 +168,41 @@ def run(rep):
     mutators.descent(rep, 'R07.3', mod, 'unsubscribe', '_subscribers')
     mutators.descent(rep, 'R07.3', mod, 'subscribe', '_subscribers')
 
-    # R07.4 handler path
+    # R07.4 handler path (over path summaries)
     f = us
-    ifs = [n for n in walk_local(f) if isinstance(n, ast.If)
-           and (match('provided is None', n.test) is not None
-                or match('provided is not None', n.test) is not None)]
-    ok = len(ifs) == 1
-    if ok:
-        i = ifs[0]
-        nb = i.body if match('provided is None', i.test) is not None else i.orelse
-        ok = any(match('extendors = (provided,)', s, 'exec') is not None or
-                 match('extendors = (None,)', s, 'exec') is not None for s in nb)
-    rep.check('R07.4', 'AdapterLookupBase._uncached_subscriptions', ok,
+    probs = []
+    seen = set()
+    for ps in _N(_S(f)):
+        calls = [e for e in ps.events if e.kind == 'call' and
+                 dotted(e.r.func) == '_subscriptions']
+        pn = ps.facts.get('provided is None')
+        for e in calls:
+            x = _nt(e.r.args[2]) if len(e.r.args) > 2 else '?'
+            seen.add(pn)
+            if pn is True and x not in ('(None,)', '(provided,)'):
+                probs.append('handlers: extendors `%s` (required (None,))' % x[:50])
+            elif pn is False and '_extendors.get(provided)' not in x:
+                probs.append('adapters: extendors `%s`' % x[:60])
+            elif pn is None:
+                probs.append('provided is not tested for None')
+    if seen != {True, False}:
+        probs.append('cases seen %s' % sorted(seen, key=str))
+    rep.check('R07.4', 'AdapterLookupBase._uncached_subscriptions', not probs,
               'provided is None -> extendors = (None,) (handlers are stored '
-              'under the key None)', construct='handler-extendors', node=f)
+              'under the key None)' if not probs else {'problems': sorted(set(probs))[:3]},
+              construct='handler-extendors', node=f)
     for fname in ('subscribe', 'unsubscribe'):
         f = find_def(mod, 'BaseAdapterRegistry.' + fname)
-        touches = [n for n in walk_local(f)
-                   if isinstance(n, ast.Attribute) and n.attr == '_provided']
-        ok = bool(touches)
-        for t in touches:
-            p = t
-            guarded = False
-            while p is not f:
-                if isinstance(p.parent, ast.If) and \
-                        match('provided is not None', p.parent.test) is not None \
-                        and shared.stmt_of(t) in list(walk_body(p.parent.body)):
-                    guarded = True
-                p = p.parent
-            ok = ok and guarded
-        rep.check('R07.4', 'BaseAdapterRegistry.' + fname, ok,
+        probs = []
+        n = 0
+        for ps in _N(_S(f)):
+            touch = [e for e in ps.events if '_provided' in repr(e) or
+                     'extendor(' in repr(e)]
+            if touch:
+                n += 1
+                if ps.facts.get('provided is None') is not False:
+                    probs.append('the count is touched although provided may be None')
+        rep.check('R07.4', 'BaseAdapterRegistry.' + fname, n > 0 and not probs,
                   'the provided count / extendor index is touched only under '
                   '`provided is not None`', construct='count-guard', node=f)
 
